@@ -79,17 +79,19 @@ def coq_make(targets=None, jobs=16):
 
 
 def compile_props(prop_file):
-    """Re-checks one property file from scratch and returns coqc's output (Print Assumptions)."""
+    """Re-checks one property file from scratch and returns coqc's output (Print Assumptions).
+    Deleting and re-making happen under one lock, so that a concurrent check cannot rebuild the file in between."""
     with lock('coq'):
         vo = COQ + '/' + prop_file[:-2] + '.vo'
         for ext in ('.vo', '.vok', '.vos', '.glob'):
             p = COQ + '/' + prop_file[:-2] + ext
             if os.path.exists(p):
                 os.remove(p)
-    out = coq_make([prop_file[:-2] + '.vo'])
-    if not os.path.exists(vo):
-        raise BuildError('props ' + prop_file, out)
-    return out
+        cmd = ['timeout', '2400', 'make', '-j16', prop_file[:-2] + '.vo']
+        rc, out = _run(cmd, cwd=COQ)
+        if rc != 0 or not os.path.exists(vo):
+            raise BuildError('props ' + prop_file, out)
+        return out
 
 
 def extract_and_driver():
